@@ -15,7 +15,8 @@ from vf import core
 
 HERE = os.path.dirname(os.path.dirname(os.path.abspath(__file__)))
 REGRESS = os.path.join(HERE, "replays", "regress")
-FOUND = os.path.join(HERE, "replays", "found")
+EVDIR = os.environ.get("VF_EVIDENCE_DIR") or os.path.join(HERE, "evidence")  # overridden only by the mutant self-test
+FOUND = os.path.join(EVDIR, "found") if os.environ.get("VF_EVIDENCE_DIR") else os.path.join(HERE, "replays", "found")
 FINDINGS = os.path.join(HERE, "known_findings.json")
 
 
@@ -238,8 +239,8 @@ def main(argv):
         "wall_s": round(wall, 2),
         "violations": len(vio_lines),
     }
-    os.makedirs(os.path.join(HERE, "evidence"), exist_ok=True)
-    with open(os.path.join(HERE, "evidence", f"{prop}.json"), "w") as f:
+    os.makedirs(EVDIR, exist_ok=True)
+    with open(os.path.join(EVDIR, f"{prop}.json"), "w") as f:
         json.dump(evidence, f, indent=1, default=str)
         f.write("\n")
 
